@@ -6,10 +6,11 @@
    by letting an arbitrary task run one atomic segment at a time — a superset of the schedules of asyncio's
    ready queue (C12_schedules_reachable).  [c_pinned c = false] selects the repaired receive/__anext__
    (fixes/c12-task-done.patch, F10); the pinned variant is refuted below. *)
-From BP Require Import Base.Prelude Model.Channel Model.C12X.
+From BP Require Import Base.Prelude Model.Channel Model.C12X Model.C12Gap.
 From BP Require Import Proofs.ChannelP1 Proofs.ChannelP2 Proofs.ChannelP3 Proofs.ChannelP4 Proofs.ChannelP5
                        Proofs.ChannelP6 Proofs.ChannelP7 Proofs.ChannelP8.
 From BP Require Import Proofs.ChannelX1 Proofs.ChannelX2 Proofs.ChannelX3 Proofs.ChannelX4 Proofs.ChannelX5 Proofs.ChannelX6 Proofs.ChannelX7.
+From BP Require Import Proofs.C12GapA Proofs.C12GapB.
 From Coq Require Import Sorted.
 Local Open Scope nat_scope.
 
@@ -470,3 +471,169 @@ Example C12_ex_done_settled_c :
   (exists s', step s 1 = Some s' /\ outcome_of s' 1 = Some OCancelled /\ done s' = true) /\
   (exists s', step s 0 = Some s' /\ done s' = true).
 Proof. exact ex_done_settled_c. Qed.
+
+(* ================================================================ gap closing against the property text (clause table: header of
+   Proofs/C12GapA.v; definitions: Model/C12Gap.v; proofs: Proofs/C12GapA.v, C12GapB.v) *)
+
+(* (A) the PINNED tree without cancellation.  [cfg_sound c] = repaired code, or no cancel() / wait_for in the configuration.
+   Under it the conservation equation, task_done()'s counter, exactly-once, FIFO, the per-receiver order and the
+   one-receiver statement hold in every reachable state; C12_conserve .. C12_one_receiver are the special case c_pinned = false *)
+Theorem C12_conserve_sound : forall c s, Reach c s -> cfg_sound c = true ->
+  sent s = received s ++ reals (q s) /\ NoDup (sent s) /\ unfin s = length (q s).
+Proof. exact conserve_g. Qed.
+Print Assumptions C12_conserve_sound.
+
+Theorem C12_exactly_once_sound : forall c s, Reach c s -> cfg_sound c = true ->
+  NoDup (received s) /\ (forall x, In x (received s) -> In x (sent s)) /\ (forall x, In x (sent s) -> In x (received s) \/ In x (q s)) /\
+  (forall x, In x (received s) -> ~ In x (q s)).
+Proof. exact received_once_g. Qed.
+Print Assumptions C12_exactly_once_sound.
+
+Theorem C12_fifo_sound : forall c s, Reach c s -> cfg_sound c = true -> forall v,
+  filter (from v) (received s) = map (Msg v) (seq 0 (length (filter (from v) (received s)))) /\
+  length (filter (from v) (received s)) <= nsent_of s v.
+Proof. exact fifo_g. Qed.
+Print Assumptions C12_fifo_sound.
+
+Theorem C12_receiver_order_sound : forall c s, Reach c s -> cfg_sound c = true -> forall r,
+  sublist (received_by s r) (received s) /\ NoDup (received_by s r) /\
+  forall v, sublist (filter (from v) (received_by s r)) (map (Msg v) (seq 0 (nsent_of s v))) /\
+            StronglySorted lt (map msg_num (filter (from v) (received_by s r))).
+Proof. exact receiver_order_g. Qed.
+Print Assumptions C12_receiver_order_sound.
+
+Theorem C12_one_receiver_sound : forall c s, Reach c s -> cfg_sound c = true ->
+  (forall r1 r2 x, In x (received_by s r1) -> In x (received_by s r2) -> r1 = r2) /\
+  (forall x, In x (received s) <-> exists r, In x (received_by s r)).
+Proof. exact one_receiver_g. Qed.
+Print Assumptions C12_one_receiver_sound.
+
+(* the delivery clause for the pinned AND the repaired code (C12_delivery without its c_pinned premise) *)
+Theorem C12_delivery_nocancel : forall c s i T, Reach c s -> cfg_nocancel c = true ->
+  closed s = true -> quiescent s = true ->
+  loop_task c i = true -> nth_error (tasks s) i = Some T -> st T = Fin ORet ->
+  sent_before_close s = firstn (npre s) (received s) /\
+  forall x, In x (sent_before_close s) ->
+    exists r, In x (received_by s r) /\ forall r', In x (received_by s r') -> r' = r.
+Proof. exact delivery_g. Qed.
+Print Assumptions C12_delivery_nocancel.
+
+Theorem C12_no_value_error_sound : forall c s t o, Reach c s -> cfg_sound c = true -> outcome_of s t = Some o ->
+  outcome_is_error o = false.
+Proof. exact no_value_error_g. Qed.
+Print Assumptions C12_no_value_error_sound.
+
+Theorem C12_outcomes_nocancel_any : forall c s t o, Reach c s -> cfg_nocancel c = true ->
+  outcome_of s t = Some o -> o = ORet \/ o = OClosed \/ o = ODone.
+Proof. exact outcomes_nocancel_g. Qed.
+Print Assumptions C12_outcomes_nocancel_any.
+
+(* [cfg_sound] is exact: pinned code and one cancellation — the conservation equation fails and a receiver ends with ValueError *)
+Theorem C12_sound_exact_refuted : exists c s,
+  cfg_sound c = false /\ Reach c s /\ sent s <> received s ++ reals (q s) /\
+  (exists t, outcome_of s t = Some OValueErr).
+Proof. exact sound_exact_refuted. Qed.
+Print Assumptions C12_sound_exact_refuted.
+
+(* (B) "whose send completed before the channel was closed" is well defined: empty before close(), and fixed by the first
+   close() — whatever runs afterwards only appends to the send log *)
+Theorem C12_before_close_def : forall c s, Reach c s ->
+  npre s <= length (sent s) /\ (closed s = false -> sent_before_close s = []).
+Proof. exact before_close_def. Qed.
+Print Assumptions C12_before_close_def.
+
+Theorem C12_before_close_frozen : forall c sch s s', Reach c s -> closed s = true -> exec s sch = Some s' ->
+  sent_before_close s' = sent_before_close s /\ npre s' = npre s /\ exists l, sent s' = sent s ++ l.
+Proof. exact before_close_frozen_run. Qed.
+Print Assumptions C12_before_close_frozen.
+
+(* (C) "under every interleaving": every run of the configuration from its initial state that cannot be extended, pinned or
+   repaired code, no cancellation: if it ends closed with a returned receive loop / async-for, it took at most [bound c]
+   segments and every item sent before close() was received by exactly one receiver, nothing twice, nothing invented,
+   per sender in the order sent *)
+Theorem C12_delivery_every_run : forall c sch s i T, exec (init c) sch = Some s -> stuck s ->
+  cfg_nocancel c = true -> closed s = true ->
+  loop_task c i = true -> nth_error (tasks s) i = Some T -> st T = Fin ORet ->
+  length sch <= bound c /\ quiescent s = true /\
+  sent_before_close s = firstn (npre s) (received s) /\
+  (forall x, In x (sent_before_close s) ->
+     exists r, In x (received_by s r) /\ forall r', In x (received_by s r') -> r' = r) /\
+  NoDup (received s) /\ (forall x, In x (received s) -> In x (sent s)) /\
+  (forall v, filter (from v) (received s) = map (Msg v) (seq 0 (length (filter (from v) (received s))))).
+Proof. exact delivery_every_run. Qed.
+Print Assumptions C12_delivery_every_run.
+
+(* unbounded buffer: once closed, at quiescence EVERY task has finished (no sender and no _flush_queue task parked in put) —
+   cancellation and timeouts included, pinned or repaired; with a bounded buffer C12_obs_sender_blocked is the counterexample *)
+Theorem C12_unbounded_all_finish : forall c s, Reach c s -> c_maxsize c = 0 -> cfg_cancel_ok c = true ->
+  closed s = true -> quiescent s = true -> all_finished s = true.
+Proof. exact unbounded_all_finish. Qed.
+Print Assumptions C12_unbounded_all_finish.
+
+Theorem C12_closed_run_all_finish : forall c s sch s', Reach c s -> c_maxsize c = 0 -> cfg_cancel_ok c = true ->
+  closed s = true -> exec s sch = Some s' -> stuck s' ->
+  length sch <= bound c /\ all_finished s' = true.
+Proof. exact closed_run_all_finish. Qed.
+Print Assumptions C12_closed_run_all_finish.
+
+(* (D) exactness of the premises of the delivery clause: receivers that do not keep receiving until the channel is done leave an
+   item queued (every task finished, no cancellation); without close() a receive loop waits for ever *)
+Theorem C12_delivery_needs_loop_refuted : exists c s x,
+  cfg_nocancel c = true /\ c_pinned c = false /\ Reach c s /\ closed s = true /\ quiescent s = true /\
+  all_finished s = true /\ (forall i, loop_task c i = false) /\
+  In x (sent_before_close s) /\ ~ In x (received s) /\ In x (q s).
+Proof. exact delivery_needs_loop_refuted. Qed.
+Print Assumptions C12_delivery_needs_loop_refuted.
+
+Theorem C12_no_close_strands_refuted : exists c s,
+  cfg_nocancel c = true /\ Reach c s /\ closed s = false /\ quiescent s = true /\
+  sumf (is_st BlkGet) (tasks s) = 1 /\ received s = sent s.
+Proof. exact no_close_strands_refuted. Qed.
+Print Assumptions C12_no_close_strands_refuted.
+
+(* (E) "every later send raises ChannelClosed", at the level of runs: closed, and no send / send_from is past its closed-check
+   ([senders_idle]) — whatever runs afterwards, under any schedule, the log of completed sends never grows again (any state,
+   reachable or not).  Without [senders_idle] a sender parked in put() completes its send after close() *)
+Theorem C12_closed_idle_sent_frozen : forall sch s s', closed s = true -> senders_idle s = true ->
+  exec s sch = Some s' ->
+  sent s' = sent s /\ senders_idle s' = true /\ closed s' = true.
+Proof. exact closed_idle_sent_frozen. Qed.
+Print Assumptions C12_closed_idle_sent_frozen.
+
+Theorem C12_sent_after_close_refuted : exists c s t s',
+  cfg_nocancel c = true /\ Reach c s /\ closed s = true /\ senders_idle s = false /\
+  step s t = Some s' /\ sent s' = sent s ++ [Msg 0 1] /\ ~ In (Msg 0 1) (sent_before_close s').
+Proof. exact sent_after_close_refuted. Qed.
+Print Assumptions C12_sent_after_close_refuted.
+
+(* (F) "leaves the channel usable": after ANY history (cancellations, timeouts), a receive() entered while the channel is not
+   done and a real item is at the head of the queue returns exactly that item in one segment *)
+Theorem C12_receive_gets_head : forall c s t T p v k r, Reach c s -> cfg_sound c = true ->
+  nth_error (tasks s) t = Some T -> st T = Ready -> mc T = false -> prog T = IRecv :: p ->
+  done s = false -> q s = Msg v k :: r ->
+  exists s', step s t = Some s' /\ recv s' = recv s ++ [(t, Msg v k)] /\ q s' = r /\ W s' = W s /\
+             sent s' = sent s /\ closed s' = closed s /\ outcome_of s' t = None.
+Proof. exact receive_gets_head. Qed.
+Print Assumptions C12_receive_gets_head.
+
+(* non-vacuity of the gap-closing theorems *)
+Example C12_ex_pinned_delivery :
+  let s := final cfg_exp sch_ex in
+  c_pinned cfg_exp = true /\ cfg_sound cfg_exp = true /\ cfg_nocancel cfg_exp = true /\ Reach cfg_exp s /\
+  closed s = true /\ quiescent s = true /\ loop_task cfg_exp 3 = true /\ outcome_of s 3 = Some ORet /\
+  sent_before_close s = [Msg 1 0; Msg 1 1; Msg 0 0; Msg 0 1; Msg 0 2] /\ all_finished s = true /\
+  c_maxsize cfg_exp = 0 /\ cfg_cancel_ok cfg_exp = true.
+Proof. exact ex_pinned_delivery. Qed.
+Example C12_ex_frozen :
+  let s := final cfg_obs [1; 0; 0; 1; 2; 1; 3] in
+  Reach cfg_obs s /\ closed s = true /\ sent_before_close s = [Msg 0 0] /\
+  exists s', exec s [2; 0] = Some s' /\ sent s' = [Msg 0 0; Msg 0 1] /\ sent_before_close s' = [Msg 0 0].
+Proof. exact ex_frozen. Qed.
+Example C12_ex_sent_frozen :
+  let s := final cfg_k6 [1; 2; 0; 3] in
+  Reach cfg_k6 s /\ closed s = true /\ senders_idle s = true /\ sent s = [Msg 0 0].
+Proof. exact ex_sent_frozen. Qed.
+Example C12_ex_usable_after_cancel :
+  let s := final (cfg_f10_loss false) [0; 1; 2; 0; 3] in
+  Reach (cfg_f10_loss false) s /\ cfg_sound (cfg_f10_loss false) = true /\ outcome_of s 0 = Some OCancelled.
+Proof. cbv zeta. split; [apply final_reach; vm_compute; reflexivity|]. vm_compute. auto. Qed.
